@@ -13,6 +13,7 @@ func init() {
 	register("C17", "state threading in StateT bodies", func(c *core.Ctx) {
 		pkgs := []*packages.Package{c.Pkg("fp"), c.Pkg("statet")}
 		Stale(c, "R-STALE", pkgs, 25, 15)
+		Rerunnable(c, "R-RERUNNABLE", pkgs, 25)
 		FailStop(c, "R-FAILSTOP", pkgs, 1)
 		FailState(c, "R-FAILSTATE", pkgs, 1)
 		RunOnce(c, "R-RUNONCE", c.Pkg("fp"), 10)
